@@ -373,6 +373,20 @@ func run(c *harness.Ctx, i int) {
 		return
 	}
 
+	// 1b. a delivered chunk stays what it is while other chunks are fetched through the same store
+	held := ch
+	for _, id := range ids {
+		if id != a {
+			if o, err := s1.GetChunk(id); err == nil {
+				o.Data()
+			}
+		}
+	}
+	if hb, herr := held.Data(); herr != nil || dsu.Sum(hb) != a {
+		c.Violation("delivered-chunk-changed", "%s/%s: the bytes of a delivered chunk %x changed after other chunks were fetched through the same store (buffer reuse?)", kind, stack, a[:4])
+		return
+	}
+
 	// 2. corrupt the stored object of a
 	orig := b.read(a)
 	bad := corrupt(rng, corr, orig, plain[a], b.read(other), uncompressed)
